@@ -126,7 +126,7 @@ func (s *sim) runMethod(method string, during []Step) error {
 		return err
 	}
 	s.snapshot("pre-method")
-	s.frameSnap("pre", "method")
+	s.frameSnap("pre", frameCall(method))
 	s.w.Emit(trace.M{"e": "Begin", "controller": "disruption.method", "object": method})
 	var cmds []kdisruption.Command
 	var budgets map[string]int
@@ -150,11 +150,11 @@ func (s *sim) runMethod(method string, during []Step) error {
 		}
 		s.w.Emit(trace.M{"e": "Budget", "method": method, "reason": string(m.Reason()), "allowed": b})
 		s.frameSetCands(cs)
-		s.frameSnap("rebase", "method") // C18: from here on the candidates (and their pods) are part of the frame
+		s.frameSnap("rebase", frameCall(method)) // C18: from here on the candidates (and their pods) are part of the frame
 		cmds, e = m.ComputeCommands(ctx, budgets, cs...)
 		return e
 	})
-	s.frameSnap("post", "method")
+	s.frameSnap("post", frameCall(method))
 	s.frameSetCands(nil)
 	for i := range cmds {
 		if cmds[i].Decision() == kdisruption.NoOpDecision {
